@@ -256,6 +256,12 @@ class IntroducerClient(service.Service, Referenceable):
                          parent=lp, level=log.WEIRD, umid="ZAU15Q")
                 # process other announcements that arrived with the bad one
                 continue
+            except Exception as e:
+                # unsigned, unrecognized or undecodable announcements must
+                # not stop the others in the batch either
+                self.log("unusable inbound announcement (%s): %s" % (e, ann_t),
+                         parent=lp, level=log.WEIRD, umid="ZAU15R")
+                continue
 
             self._process_announcement(ann, key_s)
 
@@ -307,7 +313,8 @@ class IntroducerClient(service.Service, Referenceable):
                              % (ann,),
                              parent=lp2, level=log.NOISY, umid="zFGH3Q")
                     return
-                if ann["seqnum"] <= old["seqnum"]:
+                if (isinstance(old["seqnum"], int)
+                    and ann["seqnum"] <= old["seqnum"]):
                     # note that exact replays are caught earlier, by
                     # comparing the entire signed announcement.
                     self.log("not replacing old announcement, "
